@@ -40,6 +40,8 @@ declare -A ALSO=(
   [C15-last-parameter-mutator-wins]="C03"
   [C04-adderror-returns-early-on-done-context]="C06"
   [C06-deferred-group-decrements-own-pending]="C13"
+  [C08-followschema-subscription-buffer-never-reset]="C04"
+  [C02-query-cached-before-validation]="C03"
   [C13-multipart-queue-lock-split-backing-array-reuse]="C12"
 )
 # memory-level races: no interleaving of synchronisation operations exposes them, the
